@@ -38,7 +38,7 @@ def expected_out(tree):
 def render_tree(tree, unit, depth, blank_p, g, lines, numbered):
     """appends physical lines; numbered mirrors the tree with 1-based line numbers"""
     for text, ch in tree:
-        while g.chance(blank_p): lines.append(g.r.choice(['', ' ', '\t', '  ', unit, unit * (depth + 1)]))
+        while g.chance(blank_p): lines.append(g.r.choice(['', ' ', '\t', '  ', unit, unit * (depth + 1), '\r', ' \r', '\x0c', '\t\x0c ', '\x0b', '\x1c', '\x1f']))
         lines.append(unit * depth + text)
         numbered.append([text, len(lines)])
         if ch is not None:
@@ -134,6 +134,27 @@ def generate(g, tier):
         if g.chance(0.4): lines.append(r.choice(['', '  ', base + unit]))
         lines.append(base + unit + '"""')
         cases.append(dict(op='compile', src=dict(text='\n'.join(lines)), meta=dict(family='blank-in-verbatim', expout=out)))
+    # the same rules hold inside a file that is pulled in with START / STARTENV / STARTCODE: an ill-indented imported file is a
+    # tab error naming the line, exactly as when the file is compiled by itself
+    for _ in range(count(tier, 60, 500)):
+        unit = r.choice(UNITS)
+        kw = r.choice(['START', 'STARTENV', 'STARTCODE'])
+        kind = r.choice(['first', 'first-after-blank', 'all-indented', 'overdeep', 'half', 'good'])
+        if kind == 'first': lib, bad = [unit + 'STRING orphan', 'STRING next'], 1
+        elif kind == 'first-after-blank': lib, bad = ['', ' ', unit + 'STRING orphan', 'STRING next'], 3
+        elif kind == 'all-indented': lib, bad = [unit + 'STRING a', unit + 'IF TRUE', unit * 2 + 'STRING b', unit + 'STRING c'], 1
+        elif kind == 'overdeep': lib, bad = ['IF TRUE', unit + 'STRING a', unit * 3 + 'STRING b'], 3
+        elif kind == 'half' and len(unit) >= 2: lib, bad = ['IF TRUE', unit + 'STRING a', unit[:len(unit) // 2] + 'STRING b'], 3
+        else: lib, bad, kind = ['IF TRUE', unit + 'STRING a', 'STRING b'], None, 'good'
+        where = r.choice(['top', 'block', 'func'])
+        imp = f'{kw} lib'
+        main = {'top': imp, 'block': 'REPEAT 1\n    ' + imp, 'func': 'FUNC ld\n    ' + imp + '\nRUN ld'}[where] + '\nSTRING end'
+        files = {'proj/main.txt': 'STRING begin\n' + main, 'proj/lib.txt': '\n'.join(lib)}
+        if bad is None:
+            out = ['STRING begin'] + ([] if kw == 'STARTENV' else ['STRING a', 'STRING b']) + ['STRING end']
+            cases.append(dict(op='compile_file', file='proj/main.txt', files=files, meta=dict(family='import-good', expout=out)))
+        else:
+            cases.append(dict(op='compile_file', file='proj/main.txt', files=files, meta=dict(family='ill-import-' + kind, badline=bad)))
     return cases
 
 
